@@ -105,6 +105,52 @@ impl TorrentMaps {
     }
 }
 
+#[cfg(feature = "verif")]
+impl TorrentMaps {
+    /// Projection of the stored state, torrents and peers in storage order
+    pub fn verif_dump(&self) -> Vec<aquatic_common::verif::TorrentDump> {
+        use aquatic_common::verif::{PeerDump, TorrentDump};
+        use slotmap::Key;
+
+        let dump = |ipv4: bool, map: &TorrentMap| -> Vec<TorrentDump> {
+            map.torrents
+                .iter()
+                .map(|(info_hash, torrent_data)| TorrentDump {
+                    ipv4,
+                    info_hash: info_hash.0,
+                    large: true,
+                    num_seeders: Some(torrent_data.num_seeders),
+                    strong_count: None,
+                    peers: torrent_data
+                        .peers
+                        .iter()
+                        .map(|(peer_id, peer)| PeerDump {
+                            addr: None,
+                            peer_id: Some(peer_id.0),
+                            seeder: peer.seeder,
+                            valid_until: peer.valid_until.verif_raw(),
+                            owner: Some((peer.consumer_id.0, peer.connection_id.data().as_ffi())),
+                            expecting_answers: peer
+                                .expecting_answers
+                                .iter()
+                                .map(|(k, v)| {
+                                    (k.from_peer_id.0, k.regarding_offer_id.0, v.verif_raw())
+                                })
+                                .collect(),
+                        })
+                        .collect(),
+                })
+                .collect()
+        };
+
+        let mut out = dump(true, &self.ipv4);
+
+        out.extend(dump(false, &self.ipv6));
+
+        out
+    }
+}
+
 struct TorrentMap {
     torrents: IndexMap<InfoHash, TorrentData>,
     #[cfg(feature = "metrics")]
